@@ -1,0 +1,11 @@
+//go:build !verif
+
+package server
+
+import (
+	"time"
+
+	"example.com/scion-time/net/ntp"
+)
+
+func traceOp(op, clientID string, req *ntp.Packet, rxt, txt *time.Time, resp *ntp.Packet) {}
